@@ -25,3 +25,344 @@ Proof.
   now rewrite (nth_map_iota (fun c => a c r)) by exact Hc.
 Qed.
 End Transpose.
+
+(* ------------------------------------------------------------------ scalar / contour array *)
+Lemma scalar_values_shape f flt :
+  length (scalar_values f flt) = n1 f /\
+  forall r, (r < n1 f)%nat -> length (nth r (scalar_values f flt) []) = n0 f.
+Proof. apply transpose_rows_shape. Qed.
+
+Lemma scalar_values_nth f flt r c :
+  (r < n1 f)%nat -> (c < n0 f)%nat ->
+  nth c (nth r (scalar_values f flt) []) None =
+  if hidden f flt c r then None else Some (fval f 0 c r).
+Proof.
+  intros Hr Hc. unfold scalar_values. rewrite transpose_rows_nth by assumption. reflexivity.
+Qed.
+
+(* default filter: a cell is handed over as NaN iff it is invalid *)
+Lemma scalar_default_hidden_iff f r c :
+  (r < n1 f)%nat -> (c < n0 f)%nat ->
+  (nth c (nth r (scalar_values f None) []) None = None <-> fvalid f c r = false) /\
+  (fvalid f c r = true -> nth c (nth r (scalar_values f None) []) None = Some (fval f 0 c r)).
+Proof.
+  intros Hr Hc. rewrite scalar_values_nth by assumption. simpl.
+  destruct (fvalid f c r); simpl; split; try split; intros; try reflexivity; try discriminate.
+Qed.
+
+(* explicit filter: a cell is NaN iff the (resampled) filter is zero there ... *)
+Lemma scalar_filter_hidden_iff f a r c :
+  (r < n1 f)%nat -> (c < n0 f)%nat ->
+  (nth c (nth r (scalar_values f (Some a)) []) None = None <->
+   resample_aux a (n0 f) (n1 f) c r == 0).
+Proof.
+  intros Hr Hc. rewrite scalar_values_nth by assumption. simpl.
+  destruct (Qeq_bool (resample_aux a (n0 f) (n1 f) c r) 0) eqn:E.
+  - split; [intros _; now apply Qeq_bool_iff | reflexivity].
+  - split; [discriminate | intros H; apply Qeq_bool_iff in H; congruence].
+Qed.
+
+(* ... so the full statement "NaN iff invalid OR filtered" holds under the guard that the filter
+   vanishes on the invalid cells, *)
+Lemma scalar_hidden_partial f a r c :
+  (r < n1 f)%nat -> (c < n0 f)%nat ->
+  (fvalid f c r = false -> resample_aux a (n0 f) (n1 f) c r == 0) ->
+  (nth c (nth r (scalar_values f (Some a)) []) None = None <->
+   (fvalid f c r = false \/ resample_aux a (n0 f) (n1 f) c r == 0)).
+Proof.
+  intros Hr Hc G. rewrite scalar_filter_hidden_iff by assumption. tauto.
+Qed.
+
+(* ... and is false of the code in general: witness = the known finding *)
+Definition witness_field : pfield :=
+  mkPF (mkRegion [0; 0] [4; 2] ["x"%string; "y"%string] ["m"%string; "m"%string] (1 # 1000000000000))
+       [4%nat; 2%nat] 1 [] [] [0; 1; 2; 3; 4; 5; 6; 7]
+       [true; true; false; true; true; true; true; true].
+Definition witness_filter : aux := mkAux [4%nat; 2%nat] [1; 1; 1; 1; 1; 1; 1; 1].
+
+Lemma scalar_hidden_refuted :
+  exists f a r c, (r < n1 f)%nat /\ (c < n0 f)%nat /\ fvalid f c r = false /\
+    exists im, plot_scalar f MDefault (Some a) = OK im /\
+               nth c (nth r (im_rows im) []) None = Some (fval f 0 c r).
+Proof.
+  exists witness_field, witness_filter, 0%nat, 1%nat.
+  repeat split; try (vm_compute; lia); try reflexivity.
+  eexists. split; [vm_compute; reflexivity|]. vm_compute. reflexivity.
+Qed.
+
+(* ------------------------------------------------------------------ placement (imshow) *)
+Lemma pow10_pos k : 0 < pow10 k.
+Proof.
+  unfold pow10. destruct (0 <=? k)%Z eqn:E.
+  - apply inject_Z_pos. apply Z.pow_pos_nonneg; lia.
+  - apply Qinv_lt_0_compat. apply inject_Z_pos. apply Z.pow_pos_nonneg; lia.
+Qed.
+
+Lemma setup_multiplier_pos r mu m p : setup_multiplier r mu = OK (m, p) -> 0 < m.
+Proof.
+  unfold setup_multiplier. destruct mu as [| k | q].
+  - destruct (si_max_multiplier (edges r)) as [k|]; simpl; [|discriminate].
+    destruct (si_prefix k); [|discriminate]. intros H; inversion H. apply pow10_pos.
+  - destruct (si_prefix k); [|discriminate]. intros H; inversion H. apply pow10_pos.
+  - discriminate.
+Qed.
+
+(* one axis: the column painted over x is the cell that contains x*m *)
+Lemma displayed_axis lo hi (k : nat) m x x0 x1 :
+  lo < hi -> (0 < k)%nat -> 0 < m ->
+  x0 == lo / m -> x1 == hi / m ->
+  lo <= x * m -> x * m < hi ->
+  let c := displayed_index x0 x1 k x in
+  let cl := cell_of lo hi (Z.of_nat k) in
+  (0 <= c < Z.of_nat k)%Z /\ lo + inject_Z c * cl <= x * m /\ x * m < lo + (inject_Z c + 1) * cl.
+Proof.
+  intros Hlh Hk Hm E0 E1 Hlo Hhi c cl.
+  assert (Kp : 0 < inject_Z (Z.of_nat k)) by (apply inject_Z_pos; lia).
+  pose proof (cell_pos lo hi (Z.of_nat k) Hlh ltac:(lia)) as Hc. fold cl in Hc.
+  pose proof (cell_times_n lo hi (Z.of_nat k) ltac:(lia)) as Hn. fold cl in Hn.
+  set (t := (x * m - lo) / cl).
+  assert (Et : (x - x0) / ((x1 - x0) / inject_Z (Z.of_nat k)) == t).
+  { unfold t. rewrite E0, E1. unfold cl, cell_of. field.
+    repeat split; lra. }
+  assert (Ec : c = Qfloor t) by (unfold c, displayed_index; now rewrite Et).
+  pose proof (Qfloor_bounds t) as [B1 B2]. rewrite <- Ec in B1, B2.
+  assert (T0 : 0 <= t) by (unfold t; apply Qle_shift_div_l; [exact Hc | lra]).
+  assert (T1 : t < inject_Z (Z.of_nat k)) by (unfold t; apply Qlt_shift_div_r; [exact Hc | lra]).
+  assert (Tm : t * cl == x * m - lo) by (unfold t; field; lra).
+  split; [|split].
+  - split.
+    + rewrite Ec. apply Qfloor_resp_le in T0. exact T0.
+    + apply Z.lt_nge. intros Hge. apply (Qlt_irrefl t).
+      eapply Qlt_le_trans; [exact T1|]. eapply Qle_trans; [|exact B1].
+      rewrite <- Zle_Qle. exact Hge.
+  - assert (inject_Z c * cl <= t * cl) by (apply Qmult_le_compat_r; [exact B1 | lra]). lra.
+  - assert (t * cl < (inject_Z c + 1) * cl) by (apply Qmult_lt_compat_r; [exact Hc | exact B2]). lra.
+Qed.
+
+Lemma ext_axis lo hi m : lo < hi -> 0 < m ->
+  let l := 0 - (0 - lo) * (1 / m) in let h := l + (hi - lo) * (1 / m) in
+  Qmin l h == lo / m /\ Qmax l h == hi / m.
+Proof.
+  intros Hlh Hm l h.
+  assert (El : l == lo / m) by (unfold l; field; lra).
+  assert (Eh : h == hi / m) by (unfold h, l; field; lra).
+  assert (Hi : 0 < / m) by (apply Qinv_lt_0_compat; exact Hm).
+  assert (Hlt : l <= h).
+  { rewrite El, Eh. unfold Qdiv. apply Qlt_le_weak. apply Qmult_lt_compat_r; assumption. }
+  split.
+  - rewrite (Q.min_l _ _ Hlt). exact El.
+  - rewrite (Q.max_r _ _ Hlt). exact Eh.
+Qed.
+
+Lemma plot_scalar_inv f mu flt im :
+  plot_scalar f mu flt = OK im ->
+  exists m p, setup_multiplier (preg f) mu = OK (m, p) /\ 0 < m /\ ndim (preg f) = 2%nat /\ (pnv f <= 1)%nat /\
+    im_rows im = scalar_values f flt /\ im_extent im = extent (preg f) m /\
+    im_labels im = axis_labels (preg f) p.
+Proof.
+  unfold plot_scalar, mpl_init.
+  destruct (ndim (preg f) =? 2)%nat eqn:En; simpl; [|discriminate].
+  destruct (1 <? pnv f)%nat eqn:Ev; [discriminate|].
+  destruct (filter_ok flt); simpl; [|discriminate].
+  destruct (setup_multiplier (preg f) mu) as [[m p]|] eqn:Es; simpl; [|discriminate].
+  intros H; inversion H; subst; simpl.
+  exists m, p. repeat split; try reflexivity.
+  - eapply setup_multiplier_pos; exact Es.
+  - now apply Nat.eqb_eq.
+  - apply Nat.ltb_ge in Ev. exact Ev.
+Qed.
+
+(* the value painted over the plot position (x, y) is the value of the cell containing
+   (x*m, y*m); nothing (NaN) iff that cell is hidden *)
+Lemma scalar_position f mu flt im lo0 lo1 hi0 hi1 :
+  plot_scalar f mu flt = OK im ->
+  pmin (preg f) = [lo0; lo1] -> pmax (preg f) = [hi0; hi1] ->
+  lo0 < hi0 -> lo1 < hi1 -> (0 < n0 f)%nat -> (0 < n1 f)%nat ->
+  exists m p, setup_multiplier (preg f) mu = OK (m, p) /\ 0 < m /\
+  forall x y, lo0 <= x * m -> x * m < hi0 -> lo1 <= y * m -> y * m < hi1 ->
+  exists i j, (i < n0 f)%nat /\ (j < n1 f)%nat /\
+    (let c0 := cell_of lo0 hi0 (Z.of_nat (n0 f)) in
+     lo0 + inject_Z (Z.of_nat i) * c0 <= x * m /\ x * m < lo0 + (inject_Z (Z.of_nat i) + 1) * c0) /\
+    (let c1 := cell_of lo1 hi1 (Z.of_nat (n1 f)) in
+     lo1 + inject_Z (Z.of_nat j) * c1 <= y * m /\ y * m < lo1 + (inject_Z (Z.of_nat j) + 1) * c1) /\
+    displayed_cell (im_rows im) (im_extent im) None x y =
+      if hidden f flt i j then None else Some (fval f 0 i j).
+Proof.
+  intros Hp Hmin Hmax H0 H1 Hn0 Hn1.
+  destruct (plot_scalar_inv _ _ _ _ Hp) as (m & p & Es & Hm & _ & _ & Er & Ee & _).
+  exists m, p. split; [exact Es|]. split; [exact Hm|].
+  intros x y Hx0 Hx1 Hy0 Hy1.
+  destruct (ext_axis lo0 hi0 m H0 Hm) as [Ea0 Eb0].
+  destruct (ext_axis lo1 hi1 m H1 Hm) as [Ea1 Eb1].
+  pose proof (displayed_axis lo0 hi0 (n0 f) m x _ _ H0 Hn0 Hm Ea0 Eb0 Hx0 Hx1) as (Rc & Cc1 & Cc2).
+  pose proof (displayed_axis lo1 hi1 (n1 f) m y _ _ H1 Hn1 Hm Ea1 Eb1 Hy0 Hy1) as (Rr & Cr1 & Cr2).
+  set (c := displayed_index _ _ (n0 f) x) in *.
+  set (r := displayed_index _ _ (n1 f) y) in *.
+  exists (Z.to_nat c), (Z.to_nat r).
+  assert (Ic : (Z.to_nat c < n0 f)%nat) by lia.
+  assert (Ir : (Z.to_nat r < n1 f)%nat) by lia.
+  rewrite !Z2Nat.id by lia.
+  split; [exact Ic|]. split; [exact Ir|]. split; [split; assumption|]. split; [split; assumption|].
+  rewrite <- (scalar_values_nth f flt _ _ Ir Ic).
+  unfold displayed_cell. rewrite Er, Ee.
+  destruct (scalar_values_shape f flt) as [L1 L2].
+  rewrite L1, (L2 0%nat Hn1).
+  unfold extent, edges, edges_of. rewrite Hmin, Hmax. simpl.
+  reflexivity.
+Qed.
+
+(* ------------------------------------------------------------------ vector (quiver) *)
+Lemma ravel_transpose_nth {V} k0 k1 (a : nat -> nat -> V) r c d :
+  (r < k1)%nat -> (c < k0)%nat ->
+  nth (arrow_index k0 r c) (ravel_rows (transpose_rows k0 k1 a)) d = a c r.
+Proof.
+  intros Hr Hc. unfold ravel_rows, transpose_rows, arrow_index.
+  rewrite <- flat_map_concat_map.
+  rewrite (nth_flat_map_const (fun r => map (fun c => a c r) (iota 0 k0)) (iota 0 k1) k0 r c 0%nat d).
+  - rewrite nth_iota by exact Hr. simpl. now rewrite (nth_map_iota (fun c => a c r)) by exact Hc.
+  - intros x. now rewrite map_length, iota_length.
+  - now rewrite iota_length.
+  - exact Hc.
+Qed.
+
+(* the arrow of cell (i, j): NaN iff the cell is invalid (for a mapped component), else the
+   field's own component; a missing component is drawn as 0 *)
+Lemma arrow_values_nth f k i j :
+  (i < n0 f)%nat -> (j < n1 f)%nat ->
+  nth (arrow_index (n0 f) j i) (arrow_values f k) None =
+  match k with
+  | Some k => if fvalid f i j then Some (fval f k i j) else None
+  | None => Some 0
+  end.
+Proof.
+  intros Hi Hj. unfold arrow_values. rewrite ravel_transpose_nth by assumption.
+  destruct k as [k|]; [|reflexivity]. unfold nan_where. now destruct (fvalid f i j).
+Qed.
+
+(* meshgrid: arrow (i, j) sits at (xs[i], ys[j]) *)
+Lemma meshgrid_x_nth (xs ys : list Q) i j d :
+  (i < length xs)%nat -> (j < length ys)%nat ->
+  nth (arrow_index (length xs) j i) (ravel_rows (map (fun _ => xs) ys)) d = nth i xs d.
+Proof.
+  intros Hi Hj. unfold ravel_rows, arrow_index. rewrite <- flat_map_concat_map.
+  now rewrite (nth_flat_map_const (fun _ : Q => xs) ys (length xs) j i 0 d).
+Qed.
+Lemma meshgrid_y_nth (xs ys : list Q) i j d :
+  (i < length xs)%nat -> (j < length ys)%nat ->
+  nth (arrow_index (length xs) j i) (ravel_rows (map (fun y => map (fun _ => y) xs) ys)) d = nth j ys d.
+Proof.
+  intros Hi Hj. unfold ravel_rows, arrow_index. rewrite <- flat_map_concat_map.
+  rewrite (nth_flat_map_const (fun y : Q => map (fun _ => y) xs) ys (length xs) j i d d);
+    [| intros; now rewrite map_length | exact Hj | exact Hi].
+  clear Hj. revert i Hi. induction xs as [|h t IH]; intros i Hi; simpl in *; [lia|].
+  destruct i; [reflexivity|]. apply IH. lia.
+Qed.
+
+(* coordinates handed over = cell centres divided by the multiplier *)
+Lemma centres_nth r k a m i lo hi :
+  nth a (pmin r) 0 = lo -> nth a (pmax r) 0 = hi -> lo < hi -> (i < k)%nat ->
+  length (centres r k a m) = k /\
+  nth i (centres r k a m) 0 ==
+    (lo + (inject_Z (Z.of_nat i) + (1 # 2)) * cell_of lo hi (Z.of_nat k)) / m.
+Proof.
+  intros El Eh Hlh Hi. unfold centres. rewrite El, Eh. split.
+  - rewrite map_length, cells_axis_length by lia. lia.
+  - rewrite (nth_indep _ 0 (0 / m)) by (rewrite map_length, cells_axis_length by lia; lia).
+    rewrite (map_nth (fun x => x / m)).
+    pose proof (cells_are_centres lo hi (Z.of_nat k) (Z.of_nat i) Hlh ltac:(lia) ltac:(lia)) as H.
+    rewrite Nat2Z.id in H. rewrite H.
+    rewrite (centre_formula lo hi (Z.of_nat k)). reflexivity.
+Qed.
+
+(* component chosen through the reversed mapping really is mapped to that axis *)
+Lemma rev_lookup_sound d m k : rev_lookup d m = Some k -> In (k, Some d) m.
+Proof.
+  induction m as [|[k' v] t IH]; simpl; [discriminate|].
+  destruct (rev_lookup d t) as [k''|] eqn:E.
+  - intros H; inversion H; subst. right. now apply IH.
+  - destruct v as [d'|]; [|discriminate].
+    destruct (String.eqb d d') eqn:Es; [|discriminate].
+    apply String.eqb_eq in Es. subst. intros H; inversion H; subst. now left.
+Qed.
+
+(* and it is the only candidate when no two components are mapped to the same axis *)
+Lemma rev_lookup_complete d m k :
+  In (k, Some d) m -> (forall k1 k2, In (k1, Some d) m -> In (k2, Some d) m -> k1 = k2) ->
+  rev_lookup d m = Some k.
+Proof.
+  intros Hin Hu. destruct (rev_lookup d m) as [k'|] eqn:E.
+  - f_equal. apply Hu; [now apply rev_lookup_sound | exact Hin].
+  - exfalso. clear Hu. induction m as [|[k0 v] t IH]; simpl in *; [exact Hin|].
+    destruct (rev_lookup d t) eqn:E'; [discriminate|].
+    destruct Hin as [H | H].
+    + inversion H; subst. now rewrite String.eqb_refl in E.
+    + now apply IH.
+Qed.
+
+Lemma arrow_names_default f :
+  pmap f <> [] -> arrow_names f None = OK (r_dim f 0, r_dim f 1).
+Proof. unfold arrow_names. destruct (pmap f); [congruence | reflexivity]. Qed.
+
+Lemma arrow_names_given f a b : arrow_names f (Some [a; b]) = OK (a, b).
+Proof. reflexivity. Qed.
+
+(* ------------------------------------------------------------------ refusals *)
+Lemma refuse_ndim f : ndim (preg f) <> 2%nat ->
+  (forall mu flt, plot_scalar f mu flt = Err RuntimeE) /\
+  (forall mu flt, plot_contour f mu flt = Err RuntimeE) /\
+  (forall mu arg uc cf, plot_vector f mu arg uc cf = Err RuntimeE) /\
+  (forall mu flt lf clim tabs, plot_lightness f mu flt lf clim tabs = Err RuntimeE) /\
+  (forall mu flt, plot_call f mu flt = Err RuntimeE).
+Proof.
+  intros H. apply Nat.eqb_neq in H.
+  repeat split; intros;
+    unfold plot_scalar, plot_contour, plot_vector, plot_lightness, plot_lightness_with, plot_call, mpl_init;
+    rewrite H; reflexivity.
+Qed.
+
+Lemma refuse_nvdim f : ndim (preg f) = 2%nat ->
+  ((1 < pnv f)%nat -> forall mu flt, plot_scalar f mu flt = Err RuntimeE) /\
+  (pnv f <> 1%nat -> forall mu flt, plot_contour f mu flt = Err RuntimeE) /\
+  ((3 < pnv f)%nat -> forall mu flt lf clim tabs, plot_lightness f mu flt lf clim tabs = Err RuntimeE).
+Proof.
+  intros H. apply Nat.eqb_eq in H.
+  repeat split; intros Hv; intros;
+    unfold plot_scalar, plot_contour, plot_lightness, plot_lightness_with, mpl_init; rewrite H; simpl.
+  - apply Nat.ltb_lt in Hv. now rewrite Hv.
+  - apply Nat.eqb_neq in Hv. now rewrite Hv.
+  - apply Nat.ltb_lt in Hv. now rewrite Hv.
+Qed.
+
+(* ------------------------------------------------------------------ labels *)
+Lemma scalar_labels f mu flt im :
+  plot_scalar f mu flt = OK im ->
+  exists m p, setup_multiplier (preg f) mu = OK (m, p) /\
+    im_labels im =
+      ((nth 0 (dims (preg f)) "" ++ " (" ++ p ++ nth 0 (units (preg f)) "" ++ ")")%string,
+       (nth 1 (dims (preg f)) "" ++ " (" ++ p ++ nth 1 (units (preg f)) "" ++ ")")%string).
+Proof.
+  intros H. destruct (plot_scalar_inv _ _ _ _ H) as (m & p & Es & _ & _ & _ & _ & _ & El).
+  exists m, p. split; [exact Es|]. rewrite El. reflexivity.
+Qed.
+
+Lemma explicit_si_multiplier r k p : si_prefix k = Some p ->
+  setup_multiplier r (MSI k) = OK (pow10 (3 * k), p).
+Proof. intros H. unfold setup_multiplier. now rewrite H. Qed.
+
+(* ------------------------------------------------------------------ lightness *)
+Section LightnessStructure.
+Variable hls : Q -> Q -> Q -> list Q.
+
+(* pixel (row r, column c) of the RGBA image: transparent black iff the cell is hidden, else the
+   colour of hue = angle / 2 pi and the clim-normalised lightness, opaque *)
+Lemma lightness_rgba_nth k0 k1 tp hue light clim hid r c :
+  (r < k1)%nat -> (c < k0)%nat ->
+  nth c (nth r (lightness_rgba hls k0 k1 tp hue light clim hid) []) [] =
+  if hid c r then [0; 0; 0; 0]
+  else hls (normalise_from 0 tp 0 1 (hue c r))
+           (nth (c * k1 + r) (normalise_auto (fst clim) (snd clim) light) 0) 1 ++ [1].
+Proof. intros Hr Hc. unfold lightness_rgba. now rewrite transpose_rows_nth. Qed.
+End LightnessStructure.
+
+Lemma hue_is_angle_over_twopi tp v : ~ tp == 0 -> normalise_from 0 tp 0 1 v == v / tp.
+Proof. intros H. unfold normalise_from. field. lra. Qed.
